@@ -373,11 +373,34 @@ def write_if_changed(path, content):
     return True
 
 
+def gen_kernels():
+    """T-C: trace the numeric kernels of the current source (harness/symtrace.py) in a child interpreter (the tracer
+    patches numpy / pyorbital module attributes while it runs)."""
+    import subprocess
+    env = dict(os.environ, PV_REPO=REPO, PYTHONDONTWRITEBYTECODE="1")
+    p = subprocess.run([sys.executable, os.path.join(HERE, "symtrace.py")], stdout=subprocess.PIPE, stderr=subprocess.PIPE,
+                       env=env, timeout=600)
+    if p.returncode != 0 or not p.stdout.startswith(b"/- GENERATED"):
+        raise ExtractError("symbolic tracing of the kernels failed: " + p.stderr.decode(errors="replace")[-1200:])
+    return p.stdout.decode()
+
+
 def regenerate():
     changed = []
-    for name, fn in (("Consts.lean", gen_consts), ("TleColumns.lean", gen_tle_columns)):
-        if write_if_changed(os.path.join(LEAN_GEN, name), fn()):
+    errors = []
+    for name, fn in (("Consts.lean", gen_consts), ("TleColumns.lean", gen_tle_columns), ("Kernels.lean", gen_kernels)):
+        try:
+            text = fn()
+        except Exception as e:  # noqa  keep going: the other generated files must still be current
+            errors.append("%s: %s" % (name, e))
+            # a stale generated file must not let a proof pass: replace it by one that cannot be built
+            write_if_changed(os.path.join(LEAN_GEN, name),
+                             "/- GENERATION FAILED: %s -/\n#eval (generation_failed : Nat)\n" % str(e).replace("-/", "- /")[:600])
+            continue
+        if write_if_changed(os.path.join(LEAN_GEN, name), text):
             changed.append(name)
+    if errors:
+        raise ExtractError("; ".join(errors))
     return changed
 
 
